@@ -131,6 +131,12 @@ func (a *Asm) If(t VT, has bool) {
 	a.B = append(a.B, wasm.OpcodeIf, b)
 	a.T = append(a.T, "if:"+s)
 }
+// BlockT opens a block / loop / if whose block type is a type index (parameters and several results).
+func (a *Asm) BlockT(opc byte, name string, typeIdx uint32) {
+	a.B = append(a.B, opc)
+	a.B = append(a.B, leb128.EncodeInt64(int64(typeIdx))...)
+	a.T = append(a.T, fmt.Sprintf("%s:@%d", name, typeIdx))
+}
 func (a *Asm) Else()        { a.op("else", wasm.OpcodeElse) }
 func (a *Asm) End()         { a.op("end", wasm.OpcodeEnd) }
 func (a *Asm) Drop()        { a.op("drop", wasm.OpcodeDrop) }
@@ -431,6 +437,7 @@ type Config struct {
 	Bulk                         bool // memory.copy / memory.fill
 	TailCalls                    bool // return_call (needs experimental.CoreFeaturesTailCall)
 	SIMD                         bool // v128 locals and lane-wise integer ops (outside the Lean fragment)
+	BlockParams                  bool // block / loop / if with parameters and several results, taken back edges with operands (outside the Lean fragment)
 }
 
 type fgen struct {
@@ -954,6 +961,10 @@ func (g *fgen) stmt(depth int) {
 				g.a.Drop()
 			}
 		}
+	case 19, 20:
+		if g.cfg.BlockParams {
+			g.paramBlock(depth)
+		}
 	case 13:
 		g.pressure(depth)
 	case 15:
@@ -1009,6 +1020,126 @@ func (g *fgen) stmt(depth int) {
 			g.a.Unreachable()
 			g.a.End()
 		}
+	}
+}
+
+func (g *fgen) typeIdxOf(p, r []VT) uint32 {
+	for i, t := range g.m.Types {
+		if string(t.Params) == string(p) && string(t.Results) == string(r) {
+			return uint32(i)
+		}
+	}
+	g.m.Types = append(g.m.Types, FuncType{Params: append([]VT{}, p...), Results: append([]VT{}, r...)})
+	return uint32(len(g.m.Types) - 1)
+}
+
+// sink consumes the values of the given types from the stack (top = last): into locals or dropped.
+func (g *fgen) sink(ts []VT) {
+	for k := len(ts) - 1; k >= 0; k-- {
+		if ls := g.localsOf(ts[k]); len(ls) > 0 && g.r.Intn(3) > 0 {
+			g.a.LocalSet(ls[g.r.Intn(len(ls))])
+		} else {
+			g.a.Drop()
+		}
+	}
+}
+
+// paramBlock: a block, loop or if whose block type has PARAMETERS (and any number of results), of every value
+// type incl. v128: the operands enter through the label, a loop's back edge is TAKEN with fresh operands (the
+// values that survive a branch are counted in slots, not in values: a v128 takes two in the interpreter),
+// forward branches carry the results past junk on the stack.
+func (g *fgen) paramBlock(depth int) {
+	r := g.r
+	ts := g.types()
+	if g.cfg.SIMD {
+		ts = append(append([]VT{}, ts...), V128, V128)
+	}
+	pick := func(n int) []VT {
+		out := make([]VT, n)
+		for i := range out {
+			out[i] = ts[r.Intn(len(ts))]
+		}
+		return out
+	}
+	P, R := pick(1+r.Intn(3)), pick(r.Intn(3))
+	kind := r.Intn(3) // 0 block, 1 loop, 2 if
+	if kind == 1 && g.nLoops >= 2 {
+		kind = 0
+	}
+	ti := g.typeIdxOf(P, R)
+	var cnt uint32
+	if kind == 1 {
+		cnt = uint32(len(g.locals)) - 6 + uint32(g.nLoops)
+		g.nLoops++
+		g.a.I32Const(uint32(2 + r.Intn(3)))
+		g.a.LocalSet(cnt)
+	}
+	junk := r.Intn(3) == 0 // a value below the operands that must survive untouched
+	if junk {
+		g.expr(I64, depth+1)
+	}
+	for _, p := range P {
+		g.expr(p, depth+1)
+	}
+	switch kind {
+	case 0:
+		g.a.BlockT(wasm.OpcodeBlock, "block", ti)
+	case 1:
+		g.a.BlockT(wasm.OpcodeLoop, "loop", ti)
+	default:
+		g.expr(I32, depth+1)
+		g.a.BlockT(wasm.OpcodeIf, "if", ti)
+	}
+	arity := R
+	if kind == 1 {
+		arity = P
+	}
+	g.labels = append(g.labels, labelInfo{arity: arity, isLoop: kind == 1})
+	g.sink(P)
+	g.stmts(depth+1, r.Intn(2))
+	if kind == 1 {
+		// back edge with operands: cnt--; new operands; br_if 0 while cnt != 0; the fall-through leaves them on the stack
+		g.a.LocalGet(cnt)
+		g.a.I32Const(1)
+		g.a.Num(wasm.OpcodeI32Sub)
+		g.a.LocalSet(cnt)
+		for _, p := range P {
+			g.expr(p, depth+1)
+		}
+		g.a.LocalGet(cnt)
+		g.a.BrIf(0)
+		g.sink(P)
+	} else if r.Intn(2) == 0 {
+		// conditional early exit carrying the results
+		for _, t := range R {
+			g.expr(t, depth+1)
+		}
+		g.expr(I32, depth+1)
+		g.a.BrIf(0)
+		g.sink(R)
+	}
+	for _, t := range R {
+		g.expr(t, depth+1)
+	}
+	if kind == 2 {
+		g.a.Else()
+		g.sink(P)
+		for _, t := range R {
+			g.expr(t, depth+1)
+		}
+	}
+	g.labels = g.labels[:len(g.labels)-1]
+	g.a.End()
+	g.sink(R)
+	if junk {
+		if ls := g.localsOf(I64); len(ls) > 0 {
+			g.a.LocalSet(ls[r.Intn(len(ls))])
+		} else {
+			g.a.Drop()
+		}
+	}
+	if kind == 1 {
+		g.nLoops--
 	}
 }
 
